@@ -20,13 +20,13 @@ var names = []string{"", "f", "_Z1fv", "<unknown>", "a<b>", "(x)::y"}
 
 // Generator coordinates (see Run for the bounds).
 const (
-	nLayouts = 7
+	nLayouts = 9
 	nFlags   = 4
 	nPre     = 6
 	nSrc     = 5
 )
 
-var layoutNames = []string{"A", "A+B", "A+nofile+nomapping-loc", "nofile-main+B", "A+[vdso]@0", "url-file+B", "dangling+A+B"}
+var layoutNames = []string{"A", "A+B", "A+nofile+nomapping-loc", "nofile-main+B", "A+[vdso]@0", "url-file+B", "dangling+A+B", "no mappings", "A+A2 (same file)"}
 var flagNames = []string{"none", "m0:F", "m0:file,m1:all", "m0:line,m1:F"}
 var preNames = []string{"unsymbolized", "ids 1,2,3", "ids 2,4,7", "ids 3,1,2", "ids 100,200,300", "ids 1,2,5"}
 var srcNames = []string{"no sources", "file->/debug/pprof, offset 0", "buildid->/pprof/heap, offset +0x100", "file->[local file, /x/y], offset -0x800", "file->/debug/pprof, offset -0x1800 (overflows)"}
@@ -129,8 +129,8 @@ func mkMap(id uint64, start, limit, off uint64, file, buildID string) *profile.M
 func build(cs *Case, w *world) (*profile.Profile, plugin.MappingSources) {
 	var maps []*profile.Mapping
 	var locs []locSpec
-	A := func(i int) { maps = append(maps, mkMap(uint64(len(maps)+1), 0x1000, 0x2000, 0, "/bin/a", "ba")) }
-	B := func(i int) { maps = append(maps, mkMap(uint64(len(maps)+1), 0x2000, 0x3000, 0x1000, "/lib/b.so", "")) }
+	A := func() { maps = append(maps, mkMap(uint64(len(maps)+1), 0x1000, 0x2000, 0, "/bin/a", "ba")) }
+	B := func() { maps = append(maps, mkMap(uint64(len(maps)+1), 0x2000, 0x3000, 0x1000, "/lib/b.so", "")) }
 	locsA := func(m int) {
 		locs = append(locs, locSpec{0x1000, m}, locSpec{0x1800, m}, locSpec{0x1fff, m})
 	}
@@ -138,44 +138,56 @@ func build(cs *Case, w *world) (*profile.Profile, plugin.MappingSources) {
 	lm := []int{0, 1} // the mappings that have locations
 	switch cs.Layout {
 	case 0:
-		A(0)
+		A()
 		locsA(0)
 		lm = []int{0}
 	case 1:
-		A(0)
-		B(1)
+		A()
+		B()
 		locsA(0)
 		locsB(1)
 	case 2: // second mapping without a file name, one location without mapping
-		A(0)
+		A()
 		maps = append(maps, mkMap(2, 0x2000, 0x3000, 0, "", ""))
 		locsA(0)
 		locsB(1)
 		locs = append(locs, locSpec{0x5000, -1})
 	case 3: // main binary without a file name
 		maps = append(maps, mkMap(1, 0x1000, 0x2000, 0, "", "bm"))
-		B(1)
+		B()
 		locsA(0)
 		locsB(1)
 	case 4: // a well-known system mapping at address 0
-		A(0)
+		A()
 		maps = append(maps, mkMap(2, 0, 0x1000, 0, "[vdso]", ""))
 		locsA(0)
 		locs = append(locs, locSpec{0, 1}, locSpec{0xfff, 1})
 	case 5: // a mapping whose file is the source URL
 		maps = append(maps, mkMap(1, 0x1000, 0x2000, 0, "http://m0.host/debug/pprof/profile", ""))
-		B(1)
+		B()
 		locsA(0)
 		locsB(1)
 	case 6: // a dangling mapping first
 		maps = append(maps, mkMap(1, 0x9000, 0xa000, 0, "/bin/d", "bd"))
-		A(1)
-		B(2)
+		A()
+		B()
 		locsA(1)
 		locsB(2)
 		lm = []int{1, 2}
+	case 7: // no mapping at all (the driver adds a fake one)
+		locs = append(locs, locSpec{0x1000, -1}, locSpec{0x1800, -1}, locSpec{0x1fff, -1})
+		lm = nil
+	case 8: // two segments of the same binary
+		A()
+		maps = append(maps, mkMap(2, 0x2000, 0x3000, 0x1000, "/bin/a", "ba"))
+		locsA(0)
+		locsB(1)
 	}
-	switch cs.Flags {
+	fl := cs.Flags
+	if len(lm) == 0 {
+		fl = 0
+	}
+	switch fl {
 	case 1:
 		maps[lm[0]].HasFunctions = true
 	case 2:
